@@ -201,7 +201,9 @@ def run(ctx):
             for nrows in range(0, 7):
                 bad_positions = [None] + list(range(1, nrows + 1))
                 for bad_at in bad_positions:
-                    kinds = ["cell"] if bad_at is None else (["cell", "count", "duplicate", "empty"] if kind == "delimited" else ["cell", "duplicate"])
+                    kinds = ["cell"] if bad_at is None else (["cell", "count", "duplicate", "empty"] if kind == "delimited" else
+                                                             # (a row without content between other rows of a sheet is a row like any other)
+                                                             ["cell", "duplicate", "empty"] if kind == "excel" and bad_at < nrows else ["cell", "duplicate"])
                     for bad_kind in kinds:
                         if bad_kind == "duplicate" and (bad_at is None or bad_at - 1 <= header):
                             continue
@@ -242,6 +244,13 @@ def run(ctx):
                 if ctx.mine(index):
                     for api in ("rows", "validate", "main"):
                         check(ctx, gen.KIND_OF_STORAGE[store], store, header, nrows, bad_at, "cell", limit, api)
+        # rows without content in a sheet: among the header rows, and as the one bad data row
+        for header, nrows, bad_at, limit in ((3, 5, 2, None), (3, 5, 2, 4), (1, 4, 3, None), (1, 4, 3, 3), (0, 3, 2, 1)):
+            index += 1
+            if ctx.mine(index):
+                for api in ("rows", "validate", "main"):
+                    check(ctx, "excel", "xlsx", header, nrows, bad_at, "empty", limit, api)
+                    ctx.count("cases.with-a-row-without-content-in-a-sheet")
     ctx.exhaustive = True
 
 
